@@ -114,6 +114,14 @@ impl Ctx {
             .and_then(|s| s.parse::<i64>().ok())
             .map(|v| v as u64)
             .unwrap_or(0);
+        // a call into the subject that never returns: VIOLATION after the stall limit (drivers publish
+        // the case in flight with mc::watch::progress); overall wall limit: machinery error
+        if replay_file.is_none() {
+            let (stall, wall) = if tier == Tier::Quick { (20, 1500) } else { (60, 4 * 3600) };
+            crate::watch::start(&id, "call-never-returns", stall, wall);
+        } else {
+            crate::watch::start(&id, "call-never-returns", 30, 900);
+        }
         Ctx {
             id,
             tier,
@@ -150,6 +158,7 @@ impl Ctx {
         self.assumptions.push(s.to_string());
     }
     pub fn set(&mut self, k: &str, v: impl Into<Json>) {
+        crate::watch::idle();
         self.cov.set(k, v);
     }
     /// Add to an integer counter in the coverage object.
@@ -177,6 +186,7 @@ impl Ctx {
 
     /// Classify, write replays + evidence, print the verdict lines and exit.
     pub fn finish(mut self) -> ! {
+        crate::watch::idle();
         let root = crate::verif_root();
         let findings = load_findings();
         // group by key, keeping order of first appearance
